@@ -48,7 +48,7 @@ func selectPatterns(body string, vars []Term) [][]Term {
 			continue
 		}
 		last := term[k+1 : len(term)-1]
-		if !isVar[last] {
+		if !isVar[last] || strings.Contains(term, "(ite ") {
 			continue
 		}
 		// the array part must not mention other bound variables in index position only; allow anything
